@@ -225,3 +225,22 @@ func Harness_C14_stack() {
 	VerifAssert(n == len(st.stack), "one-file-per-listed-table")
 	VerifCover("done")
 }
+
+// Harness_C14_maxrestarts: a block with more records than the 16-bit restart count can hold is still well-formed.
+// bounds: one concrete block of 66000 deletion refs with restart interval 1 (block size 2^20), decoded by the independent decoder: restart count field, ascending restart offsets each at a full key, ascending keys, all 66000 records
+// covers: done
+func Harness_C14_maxrestarts() {
+	const n = 66000
+	VerifMaxSteps(900000000)
+	data, name := bigBlock(n)
+	blk, ok := specDecodeBlock(data, 0, 0, 20, len(data))
+	VerifAssert(ok, "wf-block-decodes")
+	if !ok {
+		return
+	}
+	VerifAssert(len(blk.recs) == n, "wf-record-count")
+	if len(blk.recs) == n {
+		VerifAssert(blk.recs[0].key == name(0) && blk.recs[n-1].key == name(n-1) && blk.recs[40000].key == name(40000), "wf-record-names")
+	}
+	VerifCover("done")
+}
